@@ -656,21 +656,24 @@ impl Ctx {
             failures.sort_by_key(|c| serde_json::to_vec(c).map(|v| v.len()).unwrap_or(usize::MAX));
             let case = failures.remove(0);
             let strict_known = self.known.clone();
-            let mut r = match catch_panic(|| (f)(&case)) {
-                Ok(r) => r,
-                Err(p) => Err(Violation::new("panic", p)),
-            };
-            // timing-dependent checks: every confirmation run must fail as well
-            for _ in 0..self.confirm_runs {
-                if r.is_ok() {
-                    break;
-                }
+            // Re-run the minimal case. Deterministic checks: once. Checks against running
+            // trackers (confirm_runs > 0): up to six times, because whether a defect shows can
+            // depend on choices the harness does not own (which socket worker the kernel hands
+            // a connection to); one more failure confirms the violation found during the
+            // search, none at all makes it "undecided".
+            let attempts = if self.confirm_runs > 0 { 6 } else { 1 };
+            let mut r: CaseResult = Ok(Outcome::default());
+            for _ in 0..attempts {
                 let again = match catch_panic(|| (f)(&case)) {
                     Ok(r) => r,
                     Err(p) => Err(Violation::new("panic", p)),
                 };
-                if again.is_ok() {
-                    r = again;
+                match again {
+                    Err(v) if !v.kind.starts_with("inconclusive") => {
+                        r = Err(v);
+                        break;
+                    }
+                    other => r = other,
                 }
             }
             match r {
@@ -762,11 +765,18 @@ impl Ctx {
         // timing-dependent checks: a violation counts only if every confirmation run fails too
         if self.confirm_runs > 0 {
             for (i, r) in results.iter_mut() {
-                if r.is_err() {
-                    // a wait that ran out, or a failure that does not repeat, on a loaded
-                    // machine: the case is run again; a passing run decides (the property held
-                    // on this input), and the retry is recorded
-                    for _ in 0..self.confirm_runs {
+                if let Err(first) = r {
+                    // Undecided outcomes (a wait that ran out on a loaded machine) are simply
+                    // run again. A violation is run again up to four times: one more failure
+                    // confirms it (defects may depend on kernel choices such as which socket
+                    // worker gets a connection); if it never fails again the case passes and
+                    // the retry is recorded.
+                    let was_violation = !first.kind.starts_with("inconclusive");
+                    let first = first.clone();
+                    let tries = if was_violation { 4 } else { self.confirm_runs };
+                    let mut confirmed: Option<Violation> = None;
+                    let mut last_ok: Option<Outcome> = None;
+                    for _ in 0..tries {
                         let again = match catch_panic(|| f(&cases[*i])) {
                             Ok(r) => r,
                             Err(p) => Err(Violation::new("panic", p)),
@@ -774,17 +784,23 @@ impl Ctx {
                         match again {
                             Ok(mut o) => {
                                 o.label("passed-on-retry");
-                                *r = Ok(o);
-                                break;
-                            }
-                            Err(v2) => {
-                                // keep a real violation in preference to an undecided outcome
-                                if !v2.kind.starts_with("inconclusive") {
-                                    *r = Err(v2);
+                                last_ok = Some(o);
+                                if !was_violation {
+                                    break;
                                 }
                             }
+                            Err(v2) if !v2.kind.starts_with("inconclusive") => {
+                                confirmed = Some(v2);
+                                break;
+                            }
+                            Err(_) => {}
                         }
                     }
+                    *r = match (confirmed, last_ok) {
+                        (Some(v), _) => Err(v),
+                        (None, Some(o)) => Ok(o),
+                        (None, None) => Err(if was_violation { Violation::new("inconclusive-not-reproducible", format!("[{}] {}", first.kind, first.message)) } else { first }),
+                    };
                 }
             }
         }
